@@ -574,6 +574,30 @@ fn gen_font_plain(seed: u64, index: u64) -> (FontSpec, Profile) {
                 let sub = gen_mark_mark(r, false);
                 lks.push((*b"mkmk", mk_lookup(r, &spec, (2, 3), vec![sub])));
             }
+            if r.chance(1, 6) {
+                // every anchor of the font at the same point: each attachment has offset (0, 0) before the advances of
+                // the glyphs in between are taken back - what remains to be done is exactly the propagation pass
+                let a0 = Anchor { x: 300, y: 500 };
+                for (_, lk) in lks.iter_mut() {
+                    for st in lk.subtables.iter_mut() {
+                        match st {
+                            PosSubtable::MarkBase { marks, bases, .. } => {
+                                marks.iter_mut().for_each(|m| m.1 = a0);
+                                bases.iter_mut().for_each(|row| row.iter_mut().for_each(|c| if c.is_some() { *c = Some(a0) }));
+                            }
+                            PosSubtable::MarkLig { marks, ligatures, .. } => {
+                                marks.iter_mut().for_each(|m| m.1 = a0);
+                                ligatures.iter_mut().for_each(|l| l.iter_mut().for_each(|row| row.iter_mut().for_each(|c| if c.is_some() { *c = Some(a0) })));
+                            }
+                            PosSubtable::MarkMark { marks, mark2s, .. } => {
+                                marks.iter_mut().for_each(|m| m.1 = a0);
+                                mark2s.iter_mut().for_each(|row| row.iter_mut().for_each(|c| if c.is_some() { *c = Some(a0) }));
+                            }
+                            _ => {}
+                        }
+                    }
+                }
+            }
             spec.gpos = Some(assemble(lks));
         }
         Profile::Mixed => {
